@@ -106,6 +106,17 @@ fn check_list(l: &mut Law, reference: &[String], p: &Pointer) {
                 Component::Root => None,
                 Component::Token(t) => Some(t.decoded().into_owned()),
             };
+            // exhausted iterators stay exhausted (a second and third `next` after `None`), and are empty for every adaptor
+            {
+                let mut it = p.tokens();
+                while it.next().is_some() {}
+                l.ck(it.next().is_none() && it.next().is_none(), "tokens_yield_again_after_none");
+                l.ck(it.size_hint().1.map_or(true, |u| u == 0) && it.count() == 0, "tokens_exhausted_not_empty");
+                let mut ic = p.components();
+                while ic.next().is_some() {}
+                l.ck(ic.next().is_none() && ic.next().is_none(), "components_yield_again_after_none");
+                l.ck(ic.last().is_none(), "components_last_after_exhaustion");
+            }
             l.ck(p.tokens().count() == n, "tokens_count");
             l.ck(p.tokens().last().map(dec_of).as_ref() == reference.last(), "tokens_last");
             l.ck(p.tokens().fold(0usize, |a, _| a + 1) == n, "tokens_fold");
@@ -680,6 +691,29 @@ pub fn op_get(p: &Pointer, range: &str) -> Option<String> {
             Rg::Full => p.get(..),
             Rg::Bb(lo, hi) => p.get((to_bound(lo), to_bound(hi))),
         });
+        // a range VALUE is its two bounds: `RangeInclusive` also carries iterator state (an "exhausted" flag), which must not
+        // decide what `get` returns — a range that was iterated to its end still denotes `end..=end`
+        if let Rg::Ri(a, b) = rg {
+            if a == b && b < usize::MAX {
+                let from = b.saturating_sub(2);
+                let mut used = from..=b;
+                for _ in used.by_ref() {}
+                let (s2, e2) = (*used.start(), *used.end());
+                let fresh = guard(|| p.get(s2..=e2).map(|x| x.as_str().to_string()));
+                let stale = guard(|| p.get(used).map(|x| x.as_str().to_string()));
+                law_sublist.ck(fresh == stale, "get_depends_on_iterator_state_of_the_range");
+            }
+        }
+        if let Rg::R(a, b) = rg {
+            if a <= b && b - a <= 4 {
+                let mut used = a..b;
+                let _ = used.next();
+                let (s2, e2) = (used.start, used.end);
+                let fresh = guard(|| p.get(s2..e2).map(|x| x.as_str().to_string()));
+                let stale = guard(|| p.get(used).map(|x| x.as_str().to_string()));
+                law_sublist.ck(fresh == stale, "get_depends_on_iterator_state_of_the_range");
+            }
+        }
         let want = denote(rg, n);
         match res {
             None => {
